@@ -715,6 +715,7 @@ func c12(c *core.Check) {
 	r3 := c.Rule("R3", "box-edge sums of the fragmentation code (the space kept at the bottom of a page for paddings and borders, page margins) mention margin, padding and border with the same sides", 4)
 	sideSumRule(c, r3, "html/layout", map[string]bool{"blocks.go": true, "pages.go": true, "columns.go": true}, 7)
 	c12PageBox(c)
+	c12Orphans(c)
 	r4b := c.Rule("R4", "no call passes two same-typed arguments under each other's parameter names (swapped arguments): every pair of arguments named after the callee's parameters is aligned with them", 26)
 	argNameRule(c, r4b, "html/layout", map[string]bool{"blocks.go": true, "pages.go": true, "columns.go": true}, 40)
 }
